@@ -48,9 +48,11 @@ func (server *GripServer) Traversal(query *gripql.GraphQuery, queryServer gripql
 func (server *GripServer) ListGraphs(ctx context.Context, empty *gripql.Empty) (*gripql.ListGraphsResponse, error) {
 	//server.updateGraphMap()
 	graphs := []string{}
+	server.mapLock.RLock()
 	for g := range server.graphMap {
 		graphs = append(graphs, g)
 	}
+	server.mapLock.RUnlock()
 	return &gripql.ListGraphsResponse{Graphs: graphs}, nil
 }
 
@@ -433,7 +435,9 @@ func (server *GripServer) GetSchema(ctx context.Context, elem *gripql.GraphID) (
 	if !server.graphExists(elem.Graph) {
 		return nil, status.Errorf(codes.NotFound, fmt.Sprintf("graph %s: not found", elem.Graph))
 	}
+	server.schemaLock.RLock()
 	schema, ok := server.schemas[elem.Graph]
+	server.schemaLock.RUnlock()
 	if !ok {
 		if server.conf.Server.AutoBuildSchemas {
 			return nil, status.Errorf(codes.Unavailable, fmt.Sprintf("graph %s: schema not available; try again later", elem.Graph))
@@ -467,6 +471,9 @@ func (server *GripServer) SampleSchema(ctx context.Context, elem *gripql.GraphID
 
 // AddSchema caches a graph schema on the server
 func (server *GripServer) AddSchema(ctx context.Context, req *gripql.Graph) (*gripql.EditResult, error) {
+	// one schema upload at a time: the stored schema graph is deleted and rebuilt
+	server.schemaLock.Lock()
+	defer server.schemaLock.Unlock()
 	err := server.addFullGraph(ctx, fmt.Sprintf("%s%s", req.Graph, schemaSuffix), req)
 	if err != nil {
 		return nil, fmt.Errorf("failed to store new schema: %v", err)
@@ -489,6 +496,8 @@ func (server *GripServer) GetMapping(ctx context.Context, elem *gripql.GraphID) 
 
 // AddMapping caches a graph schema on the server
 func (server *GripServer) AddMapping(ctx context.Context, req *gripql.Graph) (*gripql.EditResult, error) {
+	server.schemaLock.Lock()
+	defer server.schemaLock.Unlock()
 	err := server.addFullGraph(ctx, fmt.Sprintf("%s%s", req.Graph, mappingSuffix), req)
 	if err != nil {
 		return nil, fmt.Errorf("failed to store new mapping: %v", err)
